@@ -8,6 +8,18 @@ COMMON_ASSUME = [
 ]
 
 PROPS = {
+    "C05": {
+        "units": [{"pkg": "./c05", "shards": 4, "shards_thorough": 16, "timeout": 600}],
+        "rule": ("rapid-generated programs of 1-25 well-formed route add/del/weight commands (all documented forms, flexible spacing) over 3 services, 6 hosts in random letter case, "
+                 "4 paths, 4 targets, tags incl. backslash and non-ASCII, option maps, weights with <=4 decimals. Oracle: independent in-harness model of the documented semantics "
+                 "(idempotent add, exact del selection + no empty routes/hosts, weight w/n on exactly the matching targets, case-insensitive hosts), compared with Table/Route/Target fields; "
+                 "round trip NewTable(t.String()) compared with the same model for tables without weight-only twins and with 4-decimal weights; add-idempotence metamorphic check. "
+                 "Non-trivial = program contains a del or weight that selects a strict non-empty subset of the existing targets; distinct by program text."),
+        "technique": "rapid model-based test: command programs against an independent reference model, plus text round trip",
+        "level_text": "Generated command programs are applied by fabio and by an independent model of the documented semantics; every route, target, tag list, option map, fixed and effective weight is compared, then the table's text rendering is re-parsed and compared again. Exploration only.",
+        "level_note": "A 'route weight' that matches nothing is expected to be rejected (current documented behaviour in TestTableParse); tags containing a double quote or comma cannot be written in the language and are not generated.",
+        "assumptions": COMMON_ASSUME,
+    },
     "C04": {
         "units": [{"pkg": "./c04", "shards": 8, "shards_thorough": 16, "timeout": 600}],
         "rule": ("rapid-generated routes with 1-40 targets, each fixed weight in {0, k/10000, tiny, >1 up to 10, negative} or dynamic, built by 'route add ... weight' lines and "
